@@ -257,7 +257,9 @@ class Check:
         if not BUILD_MATCHES_REPO:
             raise BuildError("VERIF_REPO=%s has no build tree of its own (set VERIF_BUILD): refusing to use the "
                              "binaries of %s, which were built from another tree" % (REPO, BUILD), "")
-        lock = open(os.path.join(VERIF, "work", ".ninja.lock"), "w")
+        # one lock per build tree (the default tree keeps the historical name)
+        lname = ".ninja.lock" if BUILD == "/repo/_build" else ".ninja-%s.lock" % hashlib.md5(BUILD.encode()).hexdigest()[:8]
+        lock = open(os.path.join(VERIF, "work", lname), "w")
         fcntl.flock(lock, fcntl.LOCK_EX)
         try:
             t = time.time()
